@@ -47,7 +47,15 @@ type FuncContract struct {
 	Calls    map[string]string // param name -> once|any|foreach
 	Results  []string          // names for unnamed results (r0, r1 default)
 	Unroll   map[int]int
+	Reach    []*ReachClause
 	used     bool
+}
+
+// ReachClause: the statement with the given source text may be reached only
+// when the condition holds (a gate / dominance obligation).
+type ReachClause struct {
+	Stmt   string
+	Clause *Clause
 }
 
 type SpecParam struct {
@@ -94,7 +102,7 @@ var clauseKeywords = map[string]bool{
 	"func": true, "spec": true, "ghost": true, "lemma": true, "axiom": true,
 	"requires": true, "ensures": true, "loop": true, "nopanic": true,
 	"assigns": true, "effects": true, "calls": true, "pure": true,
-	"trusted": true, "inline": true, "opaque": true, "crash_invariant": true, "results": true,
+	"trusted": true, "inline": true, "reach": true, "opaque": true, "crash_invariant": true, "results": true,
 }
 
 var tagRe = regexp.MustCompile(`^([a-z_]+)\[([A-Za-z0-9_,\- ]+)\]`)
@@ -273,6 +281,42 @@ func parseContractFile(path, pkgPath string) (*ContractFile, error) {
 			default:
 				return nil, fmt.Errorf("%s:%d: unknown loop clause %q", path, rl.line, fs[1])
 			}
+		case "reach":
+			if err := needCur(); err != nil {
+				return nil, err
+			}
+			// reach "<statement text>" only_if <expr>
+			q := strings.TrimSpace(rest)
+			if !strings.HasPrefix(q, "\"") {
+				return nil, fmt.Errorf("%s:%d: reach \"<statement>\" only_if <expr>", path, rl.line)
+			}
+			end := -1
+			for i := 1; i < len(q); i++ {
+				if q[i] == '\\' {
+					i++
+					continue
+				}
+				if q[i] == '"' {
+					end = i
+					break
+				}
+			}
+			if end < 0 {
+				return nil, fmt.Errorf("%s:%d: unterminated statement text", path, rl.line)
+			}
+			stmt, err := strconv.Unquote(q[:end+1])
+			if err != nil {
+				return nil, fmt.Errorf("%s:%d: %v", path, rl.line, err)
+			}
+			cond := strings.TrimSpace(q[end+1:])
+			if !strings.HasPrefix(cond, "only_if") {
+				return nil, fmt.Errorf("%s:%d: missing only_if", path, rl.line)
+			}
+			c, err := mk("reach", strings.TrimSpace(strings.TrimPrefix(cond, "only_if")))
+			if err != nil {
+				return nil, err
+			}
+			cur.Reach = append(cur.Reach, &ReachClause{Stmt: normText(stmt), Clause: c})
 		case "nopanic":
 			if err := needCur(); err != nil {
 				return nil, err
